@@ -79,6 +79,12 @@ class C09(Spec):
         for perms2 in ("r k*|w zz", "w k*,zz|r zz", "rw q*"):
             for pv in ("get k1", "set k1 n", "get zz", "set zz n", "increment k1", "remove zz"):
                 cases.append(base_setup("r nomatch") + CREDS["usertoken"] + [f"C 2 {pv}", f"C 1 set-permissions u {perms2}", f"C 2 {pv}", "C 1 keys"])
+        # session-order cases: every short sequence of login attempts, then a probe outside / inside the user's list
+        logins = ["use-db t u upw", "use-db t bad", "use-db t tok", "use-db nodb tok", "use-db t u bad", "use-db t x y z"]
+        for n in (2, 3):
+            for seq in itertools.product(logins, repeat=n):
+                for pv in ("get zz", "set zz n", "get k1"):
+                    cases.append(base_setup("r k*") + ["SESS 2"] + [f"C 2 {l}" for l in seq] + [f"C 2 {pv}", "C 1 keys"])
         if tier != "quick":
             rng = core.XorShift(seed)
             for _ in range(20000):
